@@ -432,3 +432,168 @@ def lexref_sweep(kinds):
 
 
 PROPS["C01"]["extra"].append(lexref_sweep(("bisim", "wf", "parse", "gocc-error", "other")))
+
+
+def c12_erasure(run):
+    import common as C, json, os
+    tool = C.ensure_tool("framecheck", "tools/framecheck")
+    tot = {"name": "FRAME erasure of debug statements (go/ast)", "obligations": 0, "discharged": 0, "violations": [], "samples": [], "backend": "FRAME", "must_have_obligations": True}
+    for plain, dbg in (("lexonly", "lexonly_dbg"), ("recover", "recover_dbg")):
+        out = os.path.join(run.work, "erasure-%s.json" % plain)
+        pk = [p for p in ("lexer", "parser", "token", "errors", "util") if os.path.isdir(os.path.join(run.carriers[plain], p))]
+        rc, o = C.sh([tool, "erasure", "-plain", run.carriers[plain], "-debug", run.carriers[dbg], "-pkgs", ",".join(pk), "-out", out])
+        if rc == 2 or not os.path.exists(out):
+            raise C.EngineError("framecheck erasure failed:\n" + o[-2000:])
+        r = json.load(open(out))
+        tot["obligations"] += r["obligations"]
+        tot["discharged"] += r["discharged"]
+        tot["samples"] += [{"carrier": dbg, "erased": x} for x in (r.get("samples") or [])[:3]]
+        for f in r.get("findings") or []:
+            tot["violations"].append({"id": "%s (%s)" % (f["obligation"], dbg), "obligation": f["obligation"], "function": f["func"], "what": f["what"], "input": None})
+    tot["cases"] = tot["obligations"]
+    return tot
+
+
+def c12_zip_tables(run):
+    """GROUND: the tables the run-time sees are cell-for-cell equal between the plain and the -zip expansion"""
+    import common as C, json, os, shutil
+    viol, cells, samples = [], 0, []
+    for plain, z in (("recover", "recover_zip"), ("conflict", "conflict_zip")):
+        dumps = {}
+        for c in (plain, z):
+            d = run.carriers[c]
+            shutil.copy(os.path.join(C.VERIF, "harness/tables/verif_tables_test.go"), os.path.join(d, "parser", "verif_tables_test.go"))
+            out = os.path.join(run.work, "tables-%s.json" % c)
+            rc, o = C.sh(["go", "test", "-vet=off", "-count=1", "-run", "TestVerifDumpTables", "./parser"], cwd=d, env=dict(C.GOENV, VERIF_OUT=out), timeout=600)
+            if not os.path.exists(out):
+                viol.append({"id": "zip-tables:%s does not build or panics in init" % c, "what": o[-800:], "input": {"carrier": c}})
+                continue
+            dumps[c] = json.load(open(out))
+        if len(dumps) == 2:
+            a, b = dumps[plain], dumps[z]
+            n = sum(len(r["actions"]) for r in a["actionTab"]) + sum(len(g) for g in a["gotoTab"]) + len(a["productionsTable"])
+            cells += n
+            for k in ("actionTab", "gotoTab", "productionsTable", "numStates", "numSymbols"):
+                if a[k] != b[k]:
+                    viol.append({"id": "zip-tables:%s differs between %s and %s" % (k, plain, z), "what": "decoded -zip table differs from the plain table", "input": {"carriers": [plain, z], "table": k}})
+            samples.append({"grammar": plain, "cells_compared": n, "states": a["numStates"]})
+    return {"name": "GROUND plain vs -zip tables as seen by the run-time", "cases": cells, "cells_checked": cells, "violations": viol, "samples": samples}
+
+
+def c12_flag_outputs(run):
+    """bounded over the grammar corpus: presentation flags change only the files they are meant to change"""
+    import expand, os, filecmp
+    gocc = expand.build_gocc(run)
+    viol, cases, samples = [], 0, []
+
+    def files(d):
+        out = {}
+        for dp, dn, fn in os.walk(d):
+            for f in fn:
+                if f.endswith(".go"):
+                    p = os.path.join(dp, f)
+                    out[os.path.relpath(p, d)] = open(p, "rb").read()
+        return out
+
+    allowed = {"-v": set(), "-no_lexer": None, "-zip": {"parser/actiontable.go", "parser/gototable.go"}, "-debug_lexer": {"lexer/lexer.go"}, "-debug_parser": {"parser/parser.go"}}
+    for g in corpus_grammars(run):
+        base_d = os.path.join(run.work, "flags", os.path.basename(g) + "-base")
+        rc0, o0 = run_gocc(run, gocc, g, ["-a"], base_d)
+        base = files(base_d)
+        for flag, may in allowed.items():
+            d = os.path.join(run.work, "flags", os.path.basename(g) + flag)
+            rc, o = run_gocc(run, gocc, g, ["-a", flag], d)
+            cur = files(d)
+            cases += 1
+            if rc != rc0:
+                viol.append({"id": "flag %s changes the exit status for %s" % (flag, os.path.basename(g)), "input": {"grammar": g, "flags": ["-a", flag]}, "what": "status %s vs %s" % (rc, rc0)})
+                continue
+            for rel in sorted(set(base) | set(cur)):
+                if flag == "-no_lexer" and rel.startswith("lexer/"):
+                    if rel in cur:
+                        viol.append({"id": "-no_lexer still writes %s for %s" % (rel, os.path.basename(g)), "input": {"grammar": g, "flags": ["-a", flag]}, "what": "lexer file written"})
+                    continue
+                if may and rel in may:
+                    continue
+                if base.get(rel) != cur.get(rel) and len(viol) < 8:
+                    viol.append({"id": "flag %s changes %s for %s" % (flag, rel, os.path.basename(g)), "input": {"grammar": g, "flags": ["-a", flag], "file": rel}, "what": "generated file differs from the one generated without the flag"})
+        if len(samples) < 5:
+            samples.append({"grammar": os.path.basename(g), "files": len(base), "flags": list(allowed)})
+    return {"name": "FLAGS outputs identical outside the files a flag is meant to change (bounded corpus)", "cases": cases, "evaluations": cases, "violations": viol, "samples": samples}
+
+
+PROPS["C12"] = {
+    "level": "other",
+    "prepare": prepare_expand,
+    "govc": [{"dir": "{gen}/lexonly_dbg", "pkgs": ["./lexer"], "contracts": [STDLIB, LEXGEN_CONTRACTS, "{verif}/contracts/debug_pure.go"], "prop": "C01"},
+             {"dir": "{gen}/recover_dbg", "pkgs": ["./parser", "./token"], "contracts": [STDLIB, TOKGEN_CONTRACTS, PARGEN_CONTRACTS, "{verif}/contracts/debug_pure.go"], "prop": "C02"},
+             {"dir": "{gen}/recover_zip", "pkgs": ["./parser", "./token"], "contracts": [STDLIB, TOKGEN_CONTRACTS, PARGEN_CONTRACTS], "prop": "C02"}],
+    "extra": [c12_erasure, c12_zip_tables, c12_flag_outputs],
+    "trusted_base": PARSE_TRUSTED + ["encoding/gob and compress/gzip round trip (decode(encode(x)) = x); cross-checked by the cell-for-cell comparison of the decoded tables"],
+    "assumptions": SCAN_ASSUME + PARSE_ASSUME + [
+        "debug helpers (TokMap.Id, TokMap.TokenString, util.RuneToString, String methods) are trusted to be free of side effects (contracts/debug_pure.go); the erasure check confirms that only calls to them occur in debug statements",
+        "-v and -no_lexer: that the flags reach only the code that writes the five text files / the lexer package is checked on a corpus of grammars (bounded), not proved over main",
+    ],
+    "explanation": "Debug flags: the Scan and Parse contracts (deterministic post-conditions) are re-proved on the -debug_lexer/-debug_parser expansions, and an erasure obligation per function shows the debug expansion is the plain one plus fmt.Printf statements with side-effect free arguments; hence both variants return the same tokens, results, errors and positions. -zip: the same run-time contracts are proved on the -zip expansion and the decoded tables are compared cell for cell with the plain ones (ground, per grammar). -v/-no_lexer: generated files compared on a corpus (bounded).",
+}
+
+
+def lrref_sweep(kinds=None, name="SYN sweep"):
+    """bounded over the SYN scope: emitted tables against the independent canonical LR(1) reference"""
+    def f(run):
+        r = sweep_tool(run, "lrref", "tools/lrref")
+        viol = []
+        for x in r.get("fails") or []:
+            if kinds and x["kind"] not in kinds:
+                continue
+            viol.append({"id": "lrref %s case %s" % (x["kind"], x["id"]), "case_id": x["id"], "what": x.get("msg"), "kind": x["kind"],
+                         "input": {"grammar": x["grammar"], "flags": x.get("flags"), "tool": "lrref", "case": x["id"]}})
+        return {"name": name + ": emitted tables equal the canonical LR(1) reference (bounded over grammars, every cell)", "cases": r["cases"], "evaluations": r["cases"],
+                "scope": {k: r.get(k) for k in ("scope", "grammars", "conflict_free", "conflicting", "accept_conflicts", "tables_checked", "language_checked", "timeouts")},
+                "violations": viol, "samples": (r.get("samples") or [])[:4] if isinstance(r.get("samples"), list) else [], "cmd": r["cmd"], "label": "bounded - never counted as proved"}
+    return f
+
+
+LR_KINDS_ALL = None
+for _p in ("C02", "C04", "C05", "C06", "C07", "C10"):
+    PROPS[_p].setdefault("extra", []).append(lrref_sweep())
+
+
+def lrref_tables(run):
+    """C15: complete translation validation of the checked-in front-end tables against spec/gocc2.ebnf"""
+    import common as C, json, os
+    exe = C.ensure_tool("lrref", "tools/lrref")
+    out = os.path.join(run.work, "lrtables.json")
+    rc, o = C.sh([exe, "tables", "-repo", run.repo, "-out", out], cwd=run.work)
+    if not os.path.exists(out):
+        raise C.EngineError("lrref tables failed (rc=%d):\n%s" % (rc, o[-2000:]))
+    r = json.load(open(out))
+    viol = []
+    for m in (r.get("mismatches") or []) if isinstance(r.get("mismatches"), list) else []:
+        viol.append({"id": "front-end table mismatch %s" % json.dumps(m)[:200], "what": json.dumps(m), "input": m})
+    if isinstance(r.get("mismatches"), int) and r["mismatches"] > 0:
+        viol.append({"id": "front-end table mismatches", "what": o[-1500:], "input": {"count": r["mismatches"]}})
+    if not r.get("production_bijection", False):
+        viol.append({"id": "front-end productions not in bijection with spec/gocc2.ebnf", "what": o[-1500:], "input": {}})
+    if r.get("canrecover_rows"):
+        viol.append({"id": "front-end table has recovery states", "what": "canRecover rows: %s" % r["canrecover_rows"], "input": {}})
+    return {"name": "TABLES front-end tables vs spec/gocc2.ebnf (complete, finite)", "programs": 1, "disagreements_checked": r.get("cells_checked", 0), "cells_checked": r.get("cells_checked", 0), "exhaustive": True,
+            "cases": r.get("cells_checked", 0), "violations": viol,
+            "samples": [{"states": r.get("states"), "action_cells": r.get("action_cells"), "goto_cells": r.get("goto_cells"), "productions": r.get("productions"), "canonical_lr1_states": r.get("canonical_lr1_states"),
+                         "error_shift_states": r.get("error_shift_states"), "index_map": r.get("index_map")}],
+            "cmd": "bin/lrref tables -repo /repo"}
+
+
+PROPS["C15"] = {
+    "level": "translation_validation",
+    "extra": [lrref_tables],
+    "checker_cmd": "bin/lrref tables -repo /repo",
+    "trusted_base": ["LR theorem (Aho-Sethi-Ullman 4.7; Jourdan-Pottier-Leroy ESOP 2012 for validators of this shape): a conflict-free automaton whose actions agree with the least closed LR(1) item annotation accepts exactly L(G) and reduces by the annotated productions",
+                     "lrref (tools/lrref), the validator written for this task: independent reader of spec/gocc2.ebnf, go/parser based reader of tables.go (mitigated by its own must-fail tests and the seeded changes seeded/C15-*)", "Go compiler and go/parser"],
+    "assumptions": [
+        "the front-end Parse function executes the LR machine of the tables: same code shape as the generated parser whose step contract is proved (C02/C07); its contracts on the hand-maintained copy are the C14 check",
+        "\"error\" and \"empty\" are read as ordinary literal terminals, as the property states",
+    ],
+    "technique": "translation validation of the checked-in LR(1) tables: per-cell obligations (least closed item annotation, action/goto agreement, production bijection by head and body, reduce-function text) evaluated completely; finite and exhaustive",
+    "explanation": "Every one of the 2640 action cells and 1920 goto cells of the checked-in front-end tables is validated against the least LR(1) item annotation of spec/gocc2.ebnf (no state numbering assumed), the productions are in bijection by head and body with the spec (indices may differ), each ReduceFunc equals the spec action after $-rewriting, all states are reachable, no cell has two candidates and no row is a recovery state. With the trusted LR theorem the accepted token language is exactly that of the spec grammar.",
+}
